@@ -12,13 +12,13 @@ CFG = dict(
     coq_sample={"quick": 20, "thorough": 60},
     sig=tl_sig,
     harness_timeout={"quick": 300, "thorough": 3600},
-    rule=TL_RULE_COMMON + "C07 families (cancel points, Wait, leaks): cancellation at each of the 7 park points (queue: before the blocking receive, after take+count, before the blocking offer; worker: loop top, before its blocking receive; PushTask: both Done() tests) x loads (idle, startup, every worker pinned, every lane full with producers blocked, hand-over in flight) = 23 scenarios per configuration; cancel inside PushTask's context calls; cancel when idle after work; back-to-back New/push/cancel/Wait on one P (51 runs, 50 ms watch after Wait); PushTask after the context ended onto lanes with room (gate cancel, wrapped WithCancel, wrapped expired WithDeadline); 300 small + 30 big stress runs cancelled at a random moment (thorough x10). Every run ends with: PushTask begun after cancel, producers released, Wait() within the bound after the last running task was released, goroutine dump, PushTask and Status after Wait",
+    rule=TL_RULE_COMMON + "C07 families (cancel points, Wait, leaks): cancellation at each of the 7 park points (queue: before the blocking receive, after take+count, before the blocking offer; worker: loop top, before its blocking receive; PushTask: both Done() tests) x loads (idle, startup, every worker pinned, every lane full with producers blocked, hand-over in flight) = 23 scenarios per configuration; cancel inside PushTask's context calls; cancel when idle after work; back-to-back New/push/cancel/Wait on one P (51 runs, 50 ms watch after Wait); PushTask after the context ended onto lanes with room (gate cancel, wrapped WithCancel, wrapped expired WithDeadline); shutdown after 1..laneSize-1 tasks ended their goroutine with runtime.Goexit (Wait() begun while a later task is inside Start(); monitors only - the LTS has no label for a task that neither returns nor panics); the empty lane (laneSize 0: Wait() returns once the context ended, theorem C07_empty_lane); 300 small + 30 big stress runs cancelled at a random moment (thorough x10). Every run ends with: PushTask begun after cancel, producers released, Wait() within the bound after the last running task was released, goroutine dump, PushTask and Status after Wait",
     trusted_base=TL_TB,
     assumptions=TL_ASSUME,
 )
 CFG["manifest"] = dict(
     text=("Proof: Coq theorems over the TaskLane LTS (Model/TaskLane.v: any laneSize, any queueSize incl. 0, any number of producers and "
-          "Status() observers, every interleaving): C07_push_after_cancel / C07_blocked_released / C07_wait_returns / C07_only_running_tasks_delay_wait / C07_nothing_after_wait (see Properties/C07.v for the full list and statements). "
+          "Status() observers, every interleaving): C07_push_after_cancel / C07_blocked_released / C07_wait_returns / C07_only_running_tasks_delay_wait / C07_nothing_after_wait / C07_empty_lane (see Properties/C07.v for the full list and statements). "
           "Tie: the real tasklane package is driven through a gate Context (parks the lane's goroutines and PushTask callers at their "
           "ctx.Done()/Err() call sites, no source hooks) and gate Tasks; every run's API-level history is judged by the extracted monitors "
           "(the property evaluated on the implementation) and by a belief-set acceptor over the model's step function (the model covers the "
